@@ -6,6 +6,7 @@ Specification side and helper lemmas for C15.
 additions leave it when `db_spec` is called: the fields `db_spec` reads, each with its "key absent" case.
 `SpecV.toJ` is the Python dict.
 -/
+set_option linter.unusedSimpArgs false
 namespace HailVerif.SpecFormat
 
 /-- one entry of `spec['secrets']`; `mountInCopy = none`: the key is absent (user-supplied secrets) -/
@@ -173,56 +174,47 @@ def compactMachineSpec (s : SpecV) : J :=
   | none => .null
   | some mt => if mt = "" then .null else .arr [.str mt, boolInt s.preemptible, .int s.storageGib]
 
+theorem dbSecrets_eq (s : SpecV) :
+    dbSecrets ((s.secrets.map fun l => J.arr (l.map SecretV.toJ)).getD .null) = some (compactSecrets s) := by
+  unfold dbSecrets compactSecrets
+  cases hs : s.secrets with
+  | none => simp [J.truthy]
+  | some l =>
+    cases l with
+    | nil => simp [J.truthy]
+    | cons a tl =>
+      have := mapM_dbSecret (a :: tl)
+      simp only [List.map_cons] at this
+      simp [J.truthy, J.elems, this]
+
+theorem dbServiceAccount_eq (s : SpecV) :
+    dbServiceAccount ((s.serviceAccount.map fun p => J.obj [("namespace", .str p.1), ("name", .str p.2)]).getD .null)
+      = some (compactServiceAccount s) := by
+  unfold dbServiceAccount compactServiceAccount
+  cases hs : s.serviceAccount with
+  | none => simp [J.truthy]
+  | some p => simp [J.truthy, J.key, List.lookup]
+
+theorem dbMachineSpec_eq (s : SpecV) (hr : ResourcesOk s) : dbMachineSpec s.resourcesJ = some (compactMachineSpec s) := by
+  obtain ⟨r1, r2, r3⟩ := resources_lookups s hr
+  unfold dbMachineSpec compactMachineSpec
+  rw [r1, r2, r3]
+  cases hm : s.machineType with
+  | none => simp [J.truthy]
+  | some mt =>
+    by_cases he : mt = ""
+    · simp [J.truthy, he]
+    · simp [J.truthy, he, J.toInt, boolInt]
+
 theorem dbSpec_eq (v : Nat) (hv : v ≠ 1) (s : SpecV) (others : List (String × J)) (ho : OthersOk others)
     (hr : ResourcesOk s) :
     dbSpec v (s.toJ others) = some (.arr ([compactSecrets s, compactServiceAccount s, boolInt (expectedHasFiles s.inputFiles),
       boolInt (expectedHasFiles s.outputFiles)] ++ (if v < 5 then [] else [compactMachineSpec s]))) := by
   obtain ⟨h1, h2, _, _, h5⟩ := lookups s others ho
   obtain ⟨hf1, hf2⟩ := hasFiles_eq s others ho
-  obtain ⟨r1, r2, r3⟩ := resources_lookups s hr
   unfold dbSpec
-  simp only [hv, if_false, h1, h2, h5, hf1, hf2, r1, r2, r3, Option.bind_eq_bind, Option.some_bind, Option.pure_def]
-  -- secrets
-  have hsec : (if ((s.secrets.map fun l => J.arr (l.map SecretV.toJ)).getD .null).truthy = true then
-        (do let xs ← ((s.secrets.map fun l => J.arr (l.map SecretV.toJ)).getD .null).elems
-            let ys ← xs.mapM dbSecret
-            pure (J.arr ys))
-      else pure ((s.secrets.map fun l => J.arr (l.map SecretV.toJ)).getD .null)) = some (compactSecrets s) := by
-    cases hs : s.secrets with
-    | none => simp [J.truthy, compactSecrets, hs]
-    | some l =>
-      cases l with
-      | nil => simp [J.truthy, compactSecrets, hs]
-      | cons a tl =>
-        simp only [Option.map_some, Option.getD_some, J.truthy, List.map_cons, List.isEmpty_cons, Bool.not_false, if_true,
-          J.elems, Option.bind_eq_bind, Option.some_bind, Option.pure_def, compactSecrets, hs]
-        have := mapM_dbSecret (a :: tl)
-        rw [List.map_cons] at this
-        rw [this]
-        simp
-  have hsa : (if ((s.serviceAccount.map fun p => J.obj [("namespace", .str p.1), ("name", .str p.2)]).getD .null).truthy = true then
-        (do pure (J.arr [← ((s.serviceAccount.map fun p => J.obj [("namespace", .str p.1), ("name", .str p.2)]).getD .null).key "namespace",
-                         ← ((s.serviceAccount.map fun p => J.obj [("namespace", .str p.1), ("name", .str p.2)]).getD .null).key "name"]))
-      else pure ((s.serviceAccount.map fun p => J.obj [("namespace", .str p.1), ("name", .str p.2)]).getD .null))
-        = some (compactServiceAccount s) := by
-    cases hs : s.serviceAccount with
-    | none => simp [J.truthy, compactServiceAccount, hs]
-    | some p => simp [J.truthy, J.key, List.lookup, compactServiceAccount, hs]
-  have hms : (if ((s.machineType.map J.str).getD .null).truthy = true then
-        (do let preemptible ← (J.bool s.preemptible).toInt
-            pure (J.arr [(s.machineType.map J.str).getD .null, .int preemptible, .int s.storageGib]))
-      else pure J.null) = some (compactMachineSpec s) := by
-    cases hm : s.machineType with
-    | none => simp [J.truthy, compactMachineSpec, hm]
-    | some mt =>
-      by_cases he : mt = ""
-      · simp [J.truthy, compactMachineSpec, hm, he]
-      · simp [J.truthy, compactMachineSpec, hm, he, J.toInt, boolInt]
-  simp only [Option.bind_eq_bind, Option.pure_def] at hsec hsa hms
-  rw [hsec, hsa]
-  simp only [Option.some_bind]
-  rw [hms]
-  simp only [Option.some_bind]
+  simp only [hv, if_false, h1, h2, h5, hf1, hf2, Option.bind_eq_bind, Option.bind_some, dbSecrets_eq, dbServiceAccount_eq,
+    dbMachineSpec_eq s hr, Option.pure_def]
   split <;> simp
 
 /-! ### region bit sets -/
@@ -235,12 +227,7 @@ theorem shift_and_one (bits k : Nat) : (((bits >>> k) &&& 1) != 0) = bits.testBi
 theorem regionsToBits_spec (mapping : List (String × Nat))
     (hrange : ∀ p ∈ mapping, 1 ≤ p.2 ∧ p.2 ≤ 63) :
     ∀ (selected : List String) (acc : Nat), (∀ r ∈ selected, (mapping.lookup r).isSome) →
-      ∃ b, selected.foldlM (fun result region => do
-          let idx ← mapping.lookup region
-          if idx < 64 then
-            if idx = 0 then none
-            else pure (result ||| (1 <<< (idx - 1)))
-          else none) acc = some b ∧
+      ∃ b, selected.foldlM (toBitsStep mapping) acc = some b ∧
         ∀ k, b.testBit k = (acc.testBit k || selected.any fun r => decide (mapping.lookup r = some (k + 1))) := by
   intro selected
   induction selected with
@@ -250,16 +237,15 @@ theorem regionsToBits_spec (mapping : List (String × Nat))
     have hr := hsel r (by simp)
     obtain ⟨idx, hidx⟩ := Option.isSome_iff_exists.1 hr
     have hmem : (r, idx) ∈ mapping := by
-      have := List.lookup_eq_some_iff.1 hidx
-      obtain ⟨l1, l2, h, _⟩ := this
+      obtain ⟨l1, l2, h, _⟩ := List.lookup_eq_some_iff.1 hidx
       rw [h]; simp
     obtain ⟨h1, h63⟩ := hrange (r, idx) hmem
     simp only at h1 h63
     obtain ⟨b, hb, hbits⟩ := ih (acc ||| (1 <<< (idx - 1))) (fun x hx => hsel x (List.mem_cons_of_mem _ hx))
+    have hstep : toBitsStep mapping acc r = some (acc ||| (1 <<< (idx - 1))) := by
+      simp [toBitsStep, hidx, show idx < 64 by omega, show ¬ idx = 0 by omega]
     refine ⟨b, ?_, ?_⟩
-    · rw [List.foldlM_cons]
-      simp only [hidx, Option.bind_eq_bind, Option.some_bind, show idx < 64 by omega, if_true, show ¬ idx = 0 by omega,
-        if_false, Option.pure_def]
+    · rw [List.foldlM_cons, hstep]
       exact hb
     · intro k
       rw [hbits k, Nat.testBit_or, Nat.one_shiftLeft, Nat.testBit_two_pow, List.any_cons, hidx]
@@ -274,10 +260,7 @@ theorem regionsToBits_spec (mapping : List (String × Nat))
 
 theorem bitsToRegions_spec (bits : Nat) :
     ∀ (mapping : List (String × Nat)) (acc : List String), (∀ p ∈ mapping, 1 ≤ p.2) →
-      mapping.foldlM (fun result (p : String × Nat) =>
-          if p.2 = 0 then none
-          else if ((bits >>> (p.2 - 1)) &&& 1) != 0 then pure (result ++ [p.1])
-          else pure result) acc
+      mapping.foldlM (toRegionsStep bits) acc
         = some (acc ++ (mapping.filter fun p => bits.testBit (p.2 - 1)).map Prod.fst) := by
   intro mapping
   induction mapping with
@@ -285,14 +268,88 @@ theorem bitsToRegions_spec (bits : Nat) :
   | cons p ps ih =>
     intro acc h
     have hp := h p (by simp)
-    rw [List.foldlM_cons]
-    simp only [show ¬ p.2 = 0 by omega, if_false, shift_and_one]
+    have hrest := fun a => ih a (fun q hq => h q (List.mem_cons_of_mem _ hq))
     by_cases hb : bits.testBit (p.2 - 1) = true
-    · simp only [hb, if_true, Option.pure_def, Option.bind_eq_bind, Option.some_bind]
-      rw [ih _ (fun q hq => h q (List.mem_cons_of_mem _ hq))]
+    · have hstep : toRegionsStep bits acc p = some (acc ++ [p.1]) := by
+        unfold toRegionsStep
+        rw [if_neg (show ¬ p.2 = 0 by omega), shift_and_one, if_pos hb]; rfl
+      rw [List.foldlM_cons, hstep]
+      show List.foldlM (toRegionsStep bits) (acc ++ [p.1]) ps = _
+      rw [hrest]
       simp [List.filter_cons, hb]
-    · simp only [hb, Bool.false_eq_true, if_false, Option.pure_def, Option.bind_eq_bind, Option.some_bind]
-      rw [ih _ (fun q hq => h q (List.mem_cons_of_mem _ hq))]
+    · have hstep : toRegionsStep bits acc p = some acc := by
+        unfold toRegionsStep
+        rw [if_neg (show ¬ p.2 = 0 by omega), shift_and_one, if_neg hb]; rfl
+      rw [List.foldlM_cons, hstep]
+      show List.foldlM (toRegionsStep bits) acc ps = _
+      rw [hrest]
       simp [List.filter_cons, hb]
+
+theorem lookup_of_mem : ∀ (m : List (String × Nat)), (m.map Prod.fst).Nodup → ∀ p ∈ m, m.lookup p.1 = some p.2 := by
+  intro m
+  induction m with
+  | nil => intro _ p hp; cases hp
+  | cons q qs ih =>
+    intro hk p hp
+    simp only [List.map_cons, List.nodup_cons] at hk
+    rcases List.mem_cons.1 hp with rfl | hp'
+    · simp [List.lookup]
+    · have hne : ¬ (p.1 = q.1) := fun e => hk.1 (e ▸ List.mem_map_of_mem (f := Prod.fst) hp')
+      have hne' : (p.1 == q.1) = false := by simpa using hne
+      rw [List.lookup_cons, hne']
+      exact ih hk.2 p hp'
+
+theorem mem_of_lookup {m : List (String × Nat)} {r : String} {i : Nat} (h : m.lookup r = some i) : (r, i) ∈ m := by
+  obtain ⟨l1, l2, e, _⟩ := List.lookup_eq_some_iff.1 h
+  rw [e]; simp
+
+theorem eq_of_snd_eq : ∀ (m : List (String × Nat)), (m.map Prod.snd).Nodup → ∀ p ∈ m, ∀ q ∈ m, p.2 = q.2 → p = q := by
+  intro m
+  induction m with
+  | nil => intro _ p hp; cases hp
+  | cons x xs ih =>
+    intro hn p hp q hq e
+    simp only [List.map_cons, List.nodup_cons] at hn
+    rcases List.mem_cons.1 hp with rfl | hp' <;> rcases List.mem_cons.1 hq with rfl | hq'
+    · rfl
+    · exact absurd (e ▸ List.mem_map_of_mem (f := Prod.snd) hq') hn.1
+    · exact absurd (e ▸ List.mem_map_of_mem (f := Prod.snd) hp') hn.1
+    · exact ih hn.2 p hp' q hq' e
+
+theorem bits_roundtrip_aux (mapping : List (String × Nat)) (hkeys : (mapping.map Prod.fst).Nodup)
+    (hinj : (mapping.map Prod.snd).Nodup) (hrange : ∀ p ∈ mapping, 1 ≤ p.2 ∧ p.2 ≤ 63)
+    (selected : List String) (hsel : ∀ r ∈ selected, r ∈ mapping.map Prod.fst) :
+    ∃ b, regionsToBits selected mapping = some b ∧ b < 2 ^ 63 ∧
+      bitsToRegions b mapping = some ((mapping.map Prod.fst).filter (fun r => decide (r ∈ selected))) := by
+  have hsome : ∀ r ∈ selected, (mapping.lookup r).isSome := by
+    intro r hr
+    obtain ⟨p, hp, rfl⟩ := List.mem_map.1 (hsel r hr)
+    rw [lookup_of_mem mapping hkeys p hp]; rfl
+  obtain ⟨b, hb, hbits⟩ := regionsToBits_spec mapping hrange selected 0 hsome
+  refine ⟨b, hb, ?_, ?_⟩
+  · apply Nat.lt_pow_two_of_testBit
+    intro i hi
+    rw [hbits i]
+    simp only [Nat.zero_testBit, Bool.false_or, List.any_eq_false, decide_eq_true_eq]
+    intro r _ hl
+    have := (hrange _ (mem_of_lookup hl)).2
+    simp only at this
+    omega
+  · unfold bitsToRegions
+    rw [bitsToRegions_spec b mapping [] (fun p hp => (hrange p hp).1), List.nil_append, List.filter_map]
+    congr 2
+    apply List.filter_congr
+    intro p hp
+    have h1 := (hrange p hp).1
+    simp only [Function.comp]
+    rw [hbits (p.2 - 1)]
+    simp only [Nat.zero_testBit, Bool.false_or, show p.2 - 1 + 1 = p.2 by omega]
+    by_cases hm : p.1 ∈ selected
+    · simp only [hm, decide_true, List.any_eq_true, decide_eq_true_eq]
+      exact ⟨p.1, hm, lookup_of_mem mapping hkeys p hp⟩
+    · simp only [hm, decide_false, List.any_eq_false, decide_eq_true_eq]
+      intro r hr hl
+      have := eq_of_snd_eq mapping hinj (r, p.2) (mem_of_lookup hl) p hp rfl
+      exact hm (by rw [← this]; exact hr)
 
 end HailVerif.SpecFormat
